@@ -2,7 +2,7 @@
 
 On top of the shared Session1 exploration: every outbound journal up to a length bound
 (slot = application message / application message the replay filter declines / session
-message / hole) x every (BeginSeqNo, EndSeqNo) in -1..last+2 (EndSeqNo also 0) x request
+message / hole / message carrying PossDupFlag=N, an OrigSendingTime of its own, latin-1 text) x every (BeginSeqNo, EndSeqNo) in -1..last+2 (EndSeqNo also 0) x request
 arriving in ACTIVE and while the receiver itself awaits a resend; each request is sent
 twice (a repeated request must give the same reply) and followed by a fresh send.
 Clauses R1-R6 of spec/SessionProps.tla are evaluated by TLC (spec/SessionEval.tla)."""
@@ -27,7 +27,7 @@ def RS(kind, pay="", **k):
 
 def journal_specs(maxlen, role_both=True):
     specs = []
-    slots = "ADSHON"
+    slots = "ADSHONL"
     n = 0
     for L in range(0, maxlen + 1):
         for pat in itertools.product(slots, repeat=L):
@@ -41,6 +41,8 @@ def journal_specs(maxlen, role_both=True):
                     sends.append(RS("HB"))
                 elif c == "N":
                     sends.append(RS("APP", "11=n%d" % i, pdn=True))          # journaled with PossDupFlag=N spelled out
+                elif c == "L":
+                    sends.append(RS("APP", "11=l%d|1=Z\xfcrich caf\xe9\xff" % i))   # single-byte text outside ASCII: replayed byte for byte
                 elif c == "O":
                     sends.append(RS("APP", "11=o%d|97=Y" % i, ost0=True))   # journaled with an OrigSendingTime of its own
                 else:
